@@ -154,7 +154,7 @@ def _prune(keep):
     root = os.path.join(CACHE, "facts")
     ents = [e for e in os.listdir(root) if not e.startswith(".") and os.path.isdir(os.path.join(root, e))]
     ents.sort(key=lambda e: os.path.getmtime(os.path.join(root, e)), reverse=True)
-    for e in ents[6:]:
+    for e in ents[30:]:
         if e != keep:
             shutil.rmtree(os.path.join(root, e), ignore_errors=True)
 
